@@ -583,6 +583,11 @@ pub struct Sink {
 }
 
 impl Sink {
+    /// append to an existing file (used by supervised workers that are restarted)
+    pub fn append(path: &str) -> Self {
+        let f = std::fs::OpenOptions::new().create(true).append(true).open(path).expect("open out");
+        Self { out: Mutex::new(Box::new(io::BufWriter::new(f))), n: Mutex::new(0), nbad: Mutex::new(0) }
+    }
     pub fn new(path: &str) -> Self {
         let f = std::fs::File::create(path).expect("create out");
         Self {
